@@ -76,6 +76,14 @@ func c10Doc(g *rng.R, tier string) (*adoc.Doc, []adoc.Event) {
 	if g.P(40) {
 		adoc.NSQuirks(g, d, true)
 	}
+	if g.P(4) {
+		// sizes around the usual strategy thresholds: many attributes on an element with children, a wide element
+		adoc.ManyAttrs(g, d, rng.Pick(g, []int{5, 8, 9, 12, 16, 17, 33, 40}))
+		adoc.ManyDecls(g, d, rng.Pick(g, []int{3, 7, 8, 9, 12, 20}))
+		if g.Bool() {
+			adoc.Widen(g, d, rng.Pick(g, adoc.Thresholds), false)
+		}
+	}
 	d.Finish()
 	evs := d.Events()
 	// surplus end events at the root
